@@ -37,6 +37,7 @@ func runC18(c *Ctx) {
 	r.Assume("filippo.io/edwards25519 v1.0.0 (SetBytes, SetCanonicalBytes, SetUniformBytes, SetBytesWithClamping, MultByCofactor, VarTime* as documented); crypto/sha512")
 	r.NotDec("that RFC 9381's equations imply uniqueness; curve arithmetic")
 
+	pureScan(c, "C18.pure.no-package-state", c.P.Func("pkg/vrf", "Prove"), c.P.Func("pkg/vrf", "Verify"), c.P.Func("pkg/vrf", "ProofToHash"), c.P.Func("pkg/vrf", "Proof.Hash"), c.P.Func("pkg/vrf", "Proof.Bytes"), c.P.Func("pkg/vrf", "Proof.UnmarshalBinary"))
 	c18Constants(c)
 	dec := c18Decoder(c)
 	c18Verify(c, dec)
